@@ -10,8 +10,8 @@ LEVEL = "model_checking"
 
 TAUS_Q = [0.5 * U, U, 2 * U, 3 * U]
 TAUS_T = [0.5 * U, U, 1.5 * U, 2 * U, 3 * U, 4 * U, 9 * U]
-MRTS_Q = [0.0, 4 * U]
-MRTS_T = [0.0, U, 2 * U, 4 * U, 6 * U, 8 * U, 40 * U]
+MRTS_Q = [0.0, 6 * U]   # MRTS >= 6U needed to matter on a lattice of spacing U
+MRTS_T = [0.0, 4 * U, 6 * U, 8 * U, 12 * U, 16 * U, 40 * U]
 
 
 def plan(tier):
